@@ -29,8 +29,11 @@ const (
 	c10TgtPath = "m/tgt"
 )
 
-// styles: 0 absent, 1 plain, 2 alias, 3 dot
-var c10StyleNames = []string{"absent", "plain", "alias", "dot"}
+// styles: 0 absent, 1 plain, 2 alias, 3 dot, 4 alias that is the package name of another dependency
+var c10StyleNames = []string{"absent", "plain", "alias", "dot", "alias-named-like-other-package"}
+
+// c10Collide[i] is the alias style 4 gives dependency i: the resolved name of a different dependency.
+var c10Collide = []string{"y", "y", "x"}
 
 type c10File struct {
 	Pkg    string `json:"pkg"` // package path of the file
@@ -66,6 +69,8 @@ func c10Qual(f c10File, i int) string {
 		return fmt.Sprintf("%s%d.", f.Prefix, i)
 	case 3:
 		return ""
+	case 4:
+		return c10Collide[i] + "."
 	}
 	return "?."
 }
@@ -95,6 +100,8 @@ func c10Header(f c10File, pkgName string) string {
 			specs = append(specs, fmt.Sprintf("\t%s%d %q", f.Prefix, i, p))
 		case 3:
 			specs = append(specs, fmt.Sprintf("\t. %q", p))
+		case 4:
+			specs = append(specs, fmt.Sprintf("\t%s %q", c10Collide[i], p))
 		}
 	}
 	if len(specs) > 0 {
@@ -156,7 +163,7 @@ func init() {
 		ID:    "C10",
 		Level: "model_checking",
 		Rule: "typed worlds: three dependencies (two named x, one whose name differs from its path); source file with import style per dependency in {plain, alias, dot} x moved item {function, function also using a source-local function (ResolveLocalPath), variable, statement} using each non-empty subset of the dependencies " +
-			"x target file (same or another package) with style per dependency in {absent, plain, alias, dot} x histories {single move, chain through a third file, two items, move back, move a Clone}; only type-correct source/target files are in the quantifier; decoration with the types-based resolver, restoration with an exact package-name map; " +
+			"x target file (same or another package) with style per dependency in {absent, plain, alias, dot, alias equal to the package name of another dependency} x histories {single move, chain through a third file, two items, move back, move a Clone}; only type-correct source/target files are in the quantifier; decoration with the types-based resolver, restoration with an exact package-name map; " +
 			"oracle: the restored target type-checks and every moved identifier denotes the object of the same package path and name; state = (source styles, target styles, item, uses, history); non-trivial = every state",
 		Assumptions: []string{"go/types of this toolchain is the acceptance oracle", "no declaration of the generated targets shadows an import name (the property's proviso)"},
 		Units: func(tier string) []string {
@@ -187,13 +194,13 @@ func runC10(ctx *core.Ctx, unit int) {
 		x /= 3
 	}
 	items := []string{"func", "var", "stmt", "local"}
-	for t := 0; t < 64; t++ {
+	for t := 0; t < 125; t++ {
 		var tgt c10File
 		tgt.Prefix = "t"
 		y := t
 		for i := 0; i < 3; i++ {
-			tgt.Styles[i] = y % 4
-			y /= 4
+			tgt.Styles[i] = y % 5
+			y /= 5
 		}
 		for _, tpkg := range []string{c10TgtPath, c10SrcPath} {
 			tgt.Pkg = tpkg
